@@ -472,10 +472,11 @@ func (h *hist) opConsumeWait(g *mGroup, how string) {
 	select {
 	case got = <-ch:
 	case <-time.After(5 * time.Second):
-		// consumerGroup.Pause/Close broadcast without holding the condition's lock, so a wake-up can be lost in
-		// the instant between the waiter's check and its registration. That is not what C06 states: signal
-		// again (what the next Put would do), record the observation and go on.
-		h.res.count("consume_wakeup_lost_until_next_signal."+how, 1)
+		// Not back after 5s: either the machine is starved (a first store into a mapped page can be throttled by
+		// write-back for seconds) or a wake-up was lost (consumerGroup.Pause/Close broadcast without holding the
+		// condition's lock, so a waiter between its check and its registration misses it). Neither is what C06
+		// states: signal again (what the next Put would do), record the observation and go on.
+		h.res.count("blocked_consume_not_back_after_5s."+how, 1)
 		if how != "close" {
 			h.fq.Queue().Signal()
 		}
